@@ -342,10 +342,18 @@ func nackWriter(track *rtpUpTrack) {
 		cutoff = lastSeqno - 256
 	}
 
+	lastSeqno, last := track.cache.Last()
+
 	i := 0
 	for i < len(nacks) {
 		if ((nacks[i] - cutoff) & 0x8000) != 0 {
 			// earlier than the cutoff, drop
+			nacks = append(nacks[:i], nacks[i+1:]...)
+			continue
+		}
+		if !last || nacks[i] == lastSeqno ||
+			((lastSeqno-nacks[i])&0x8000) != 0 {
+			// not older than the last packet we've seen, drop
 			nacks = append(nacks[:i], nacks[i+1:]...)
 			continue
 		}
